@@ -2,3 +2,5 @@
 ;@ghost nbegin Int
 ;@ghost ncommit Int
 ;@ghost nabort Int
+; nexec = number of plans the execution engine ran
+;@ghost nexec Int
